@@ -98,6 +98,8 @@ class World:
         self.marks = {}
         self.wire_out = {}         # pid -> bytearray (partial) for the result pipe
         self.msgs_out = {}         # pid -> [(step, time, kind, args)]
+        self.dups = 0
+        self.frames = []           # payloads of ACK / READY messages workers wrote (for the 'dup' fault)
         self.in_buf = bytearray()
         self.in_off = 0
         self.in_bounds = {0}
@@ -108,6 +110,7 @@ class World:
         self.stop_evloop = False
         self._sig_seen = set()
         self.ext_faults = [dict(f) for f in case.get('ext_faults', [])]
+        self.stalls = [dict(f, seen=0) for f in case.get('stalls', [])]
         self.size_checks = []
         self.slot_checks = []
         self.pass_checks = 0
@@ -149,6 +152,11 @@ class World:
         child.at_exit.append(self._on_worker_death)
 
     def on_sig_deliver(self, proc, signum, label):
+        if proc.pid in self.workers and signum in TERMSIGS and label.startswith('write') and \
+                self.wire_out.get(proc.pid):
+            # unwound in the middle of writing a message to the result pipe
+            self.workers[proc.pid]['term_in_write'] = (self.k.steps, label)
+            self.k.probe('worker_signalled_with_half_written_message')
         if proc.pid in self.workers and not proc.info.get('executing') and signum in TERMSIGS:
             # did this worker take a whole task off the queue that it has not announced (ACK) yet?
             name = 'W%d.' % proc.pid
@@ -190,9 +198,13 @@ class World:
                 kind, args = 'sentinel', ()
             else:
                 kind, args = msg[0], msg[1]
+            if proc is self.k.root:
+                continue        # a duplicate injected by the harness: not a worker's own traffic
             self.msgs_out.setdefault(proc.pid, []).append((self.k.steps, self.k.now, kind, args))
             if kind == READY:
                 self.ready_written.add(args[0])
+            if kind in (ACK, READY):
+                self.frames.append((kind, payload))
 
     def _tap_in(self, pipe, proc, chunk):
         """Track message boundaries of the task pipe (byte offsets in the stream)."""
@@ -215,6 +227,43 @@ class World:
                 self.first_accept_time = self.k.now
         return cb
 
+    # ------------------------------------------------------------------ stalled caller, line granularity
+    def _arm_line_stall(self, opname):
+        """A caller can lose the processor between any two lines of a pool method, not only at system calls:
+        while the first user thread is inside operation `opname`, count the lines it executes in
+        billiard/pool.py and deschedule it for `dur` simulated seconds at the n-th one."""
+        import sys
+        sys.settrace(None)
+        spec = next((f for f in self.stalls if f.get('line') and f['op'] == opname and not f.get('done')), None)
+        if spec is None:
+            return
+        k = self.k
+        me = k.cur()
+
+        def local(frame, event, arg):
+            if event == 'line' and not spec.get('done'):
+                spec['seen'] += 1
+                if spec['seen'] >= spec['line']:
+                    spec['done'] = True
+                    if not me.proc.dead and not k.aborting and not me.nosig and self.marks.get('cur_op') == opname:
+                        k.record('stall-line', opname, frame.f_code.co_name, frame.f_lineno - frame.f_code.co_firstlineno,
+                                 spec['dur'])
+                        k.fault_fired('caller_stalled_in_%s' % opname)
+                        k.stall(me, spec['dur'])
+                        k.enter('stalled')
+            return local
+
+        def tracer(frame, event, arg):
+            if spec.get('done') or self.marks.get('cur_op') != opname:
+                return None
+            if frame.f_code.co_filename.endswith('billiard/pool.py'):
+                if spec.get('body') and frame.f_code.co_name != body_names.get(opname, opname):
+                    return None         # 'body': count only the lines of the called method itself
+                return local
+            return None
+        body_names = {'apply': 'apply_async', 'map': 'map_async'}
+        sys.settrace(tracer)
+
     # ------------------------------------------------------------------ user operations
     def run_user(self, ui, ops):
         k = self.k
@@ -223,6 +272,7 @@ class World:
             name = op[0]
             if ui == 0:
                 self.marks['cur_op'] = name
+                self._arm_line_stall(name)
             if name == 'apply':
                 self.do_apply(*op[1:])
             elif name == 'map':
@@ -273,6 +323,8 @@ class World:
                     k.record('user-cancel', op[1])
             elif name == 'terminate_job':
                 self.do_terminate_job(op[1])
+            elif name == 'dup':
+                self.do_dup(op[1], op[2])
             elif name == 'wait_accepted':
                 self.wait_accepted(op[1], op[2] if len(op) > 2 else 30.0)
             elif name == 'check_size':
@@ -293,6 +345,25 @@ class World:
                                                         r.kind == 'apply' and not r.discarded]})
             else:
                 raise RuntimeError('bad user op %r' % (op,))
+
+    def do_dup(self, n, gap):
+        """Message duplication fault: a message some worker already wrote (ACK or READY) arrives a second
+        time on the result pipe, whole, at a later instant the scheduler picks."""
+        k = self.k
+        q = self.pool._outqueue
+        for _ in range(n):
+            k.sleep(gap)
+            if not self.frames or self.term_calls or 'join_ret' in self.marks:
+                continue
+            kind, payload = self.frames[k.choose(len(self.frames), 'dup-frame')]
+            try:
+                with q._wlock:
+                    q._writer.send_bytes(payload)
+            except (OSError, ValueError):
+                continue
+            k.fault_fired('message_duplicated_%s' % ('ack' if kind == ACK else 'ready'))
+            k.record('dup-message', 'ack' if kind == ACK else 'ready')
+            self.dups += 1
 
     def size_snapshot(self):
         pool = self.pool
@@ -624,6 +695,17 @@ class World:
 
     def step_hook(self, k):
         pool = self.pool
+        if self.stalls and k.current is not None and k.current.kind == 'user':
+            # stalled caller: the thread inside a pool call is descheduled for a while at its n-th kernel
+            # call of that operation (everything else goes on)
+            op = self.marks.get('cur_op')
+            for f in self.stalls:
+                if f['op'] == op and f.get('nth'):
+                    f['seen'] += 1
+                    if f['seen'] == f['nth'] and k.current.state != 'done':
+                        k.stall(k.current, f['dur'])
+                        k.record('stall', op, f['nth'], f['dur'])
+                        k.fault_fired('caller_stalled_in_%s' % op)
         # C01.c: an outcome never changes once it is observable
         inflight = 0
         for rec in self.jobs.values():
